@@ -109,7 +109,7 @@ import hashlib
 import itertools
 import json
 from pathlib import Path
-from typing import Any, Dict, List, Mapping, Tuple
+from typing import Any, Dict, List, Mapping, Tuple, cast
 
 import yaml
 
@@ -336,6 +336,84 @@ def _load_and_process_source(
     return columns, meta
 
 
+def _planned_entries_size(entries: Dict[str, List[Any]], mode: str) -> int | None:
+    """Number of runs ``_expand_entries`` would produce, or None if it would fail."""
+    lengths = [len(values) for values in entries.values()]
+    if mode == "by_position":
+        if len(set(lengths)) > 1:
+            return None
+        return lengths[0] if lengths else 0
+    if mode == "combinatorial":
+        size = 1
+        for length in lengths:
+            size *= length
+        return size
+    return None
+
+
+def _planned_total_runs(
+    spec: RunSpaceV1Config,
+    base_dir: Path,
+    loaded_sources: Dict[int, Tuple[Dict[str, List[Any]], Dict[str, Any]]],
+) -> int | None:
+    """Size of the final expansion computed from list lengths only.
+
+    Returns None whenever the specification is invalid in some other way (the
+    regular expansion then reports that error) or when no cap applies.
+    """
+    seen_keys: set[str] = set()
+    block_sizes: List[int] = []
+    for index, block in enumerate(spec.blocks):
+        context_entries = block.context
+        source_entries: Dict[str, List[Any]] = {}
+        if block.source is not None:
+            loaded_sources[index] = _load_and_process_source(block.source, base_dir)
+            source_entries = loaded_sources[index][0]
+            if set(context_entries).intersection(source_entries):
+                return None
+        source_mode = block.source.mode if block.source else block.mode
+        if block.mode == "by_position":
+            sizes = []
+            if context_entries:
+                sizes.append(_planned_entries_size(context_entries, "by_position"))
+            if source_entries:
+                sizes.append(_planned_entries_size(source_entries, source_mode))
+            if None in sizes or len(set(sizes)) > 1:
+                return None
+            block_size = sizes[0] if sizes else 0
+        elif block.mode == "combinatorial":
+            context_size = (
+                _planned_entries_size(context_entries, "combinatorial")
+                if context_entries
+                else 1
+            )
+            source_size = (
+                _planned_entries_size(source_entries, source_mode)
+                if source_entries
+                else 1
+            )
+            if context_size is None or source_size is None:
+                return None
+            block_size = context_size * source_size
+        else:
+            return None
+        current_keys = set(context_entries) | set(source_entries)
+        if seen_keys.intersection(current_keys):
+            return None
+        seen_keys.update(current_keys)
+        block_sizes.append(cast(int, block_size))
+    if not block_sizes:
+        return None
+    if spec.combine == "combinatorial":
+        total = 1
+        for size in block_sizes:
+            total *= size
+        return total
+    if spec.combine == "by_position":
+        return block_sizes[0] if len(set(block_sizes)) == 1 else None
+    return None
+
+
 def expand_run_space(
     spec: RunSpaceV1Config, *, cwd: str | Path = "."
 ) -> Tuple[List[Dict[str, Any]], Dict[str, Any]]:
@@ -362,6 +440,20 @@ def expand_run_space(
         metadata structure described in the module level docs.
     """
     base_dir = Path(cwd)
+
+    # Pre-flight: reject an oversized expansion from the list lengths alone,
+    # before any block is materialised.
+    loaded_sources: Dict[int, Tuple[Dict[str, List[Any]], Dict[str, Any]]] = {}
+    try:
+        planned_total = _planned_total_runs(spec, base_dir, loaded_sources)
+    except ConfigurationError:
+        planned_total = None  # reported by the regular expansion below
+    if planned_total is not None and planned_total > spec.max_runs:
+        raise RunSpaceMaxRunsExceededError(
+            actual_runs=planned_total,
+            max_runs=spec.max_runs,
+        )
+
     all_block_runs = []
     block_meta = []
     seen_keys: set[str] = set()
@@ -374,9 +466,12 @@ def expand_run_space(
 
         # Load source if present
         if block.source is not None:
-            source_entries, source_meta = _load_and_process_source(
-                block.source, base_dir
-            )
+            if index in loaded_sources:
+                source_entries, source_meta = loaded_sources[index]
+            else:
+                source_entries, source_meta = _load_and_process_source(
+                    block.source, base_dir
+                )
             duplicate_keys = set(context_entries).intersection(source_entries)
             if duplicate_keys:
                 raise ConfigurationError(
